@@ -42,6 +42,12 @@ type Base struct {
 	col  int
 }
 
+// base returns the Base itself. Every type embeds a Base, directly or through
+// another type, so this gives access to it whatever the type is.
+func (b *Base) base() *Base {
+	return b
+}
+
 // Core returns true if the type is one of the built in types.
 func (b *Base) Core() bool {
 	return b.core
